@@ -13,14 +13,17 @@ pub fn def() -> PropDef {
         job_level,
         run_job,
         replay,
-        rule: "bodies: ALL sequences of <= L items (quick L=3, thorough L=4) over {x, y, S-x, delay 2, C-(x y), (x y), S-(x C-(y)), (unicode ü)} x the 8 macro variants (macro, -release-cancel, -cancel-on-press, -release-cancel-and-cancel-on-press and their macro-repeat forms). Histories per (body, variant) with expanded duration n ticks: press the macro key and release it at EVERY offset 0..n+3 (and hold past the end); with another key (a plain key, and a mouse-button key, i.e. one that carries a custom action) pressed at EVERY offset 0..n+3 (held 2 ticks) while the macro key is tapped or held; plus the concurrency family: 1..6 different macros (disjoint keys) started on consecutive ticks (crosses the 4-slot ring). Oracle: independent expansion of the body (config.adoc: a key = press+release; output chord = press in order, release in reverse; MODS-(...) = mods down, contents, mods up; numbers = delays; nested lists inline): the projection of the real output onto the macro's keys equals the expansion (for the repeat forms: whole rounds); for cancel variants (cancel-on-press of the repeat forms: during the first round only — the documentation leaves later rounds open) a prefix of it followed by the releases of what the prefix left pressed, complete when no cancel event happened, and no step later than the cancel event (+2 ticks of processing slack); consecutive macro steps on distinct ticks; gaps >= stated delays; a new round of a repeating macro starts only while its key is held (slack 2); after settle no macro key is held.",
+        rule: "bodies: ALL sequences of <= L items (quick L=3, thorough L=4) over {x, y, S-x, delay 2, C-(x y), (x y), S-(x C-(y)), (unicode ü)} (up to L=3 also over the repeating groups A-(x 2 2 y), A-((unicode ü) (unicode ü) x x), (y 3 3 (unicode ü) (unicode ü))) x the 8 macro variants (macro, -release-cancel, -cancel-on-press, -release-cancel-and-cancel-on-press and their macro-repeat forms). Histories per (body, variant) with expanded duration n ticks: press the macro key and release it at EVERY offset 0..n+3 (and hold past the end); with another key (a plain key, and a mouse-button key, i.e. one that carries a custom action) pressed at EVERY offset 0..n+3 (held 2 ticks) while the macro key is tapped or held; plus the concurrency family: 1..6 different macros (disjoint keys) started on consecutive ticks (crosses the 4-slot ring). Oracle: independent expansion of the body (config.adoc: a key = press+release; output chord = press in order, release in reverse; MODS-(...) = mods down, contents, mods up; numbers = delays; nested lists inline): the projection of the real output onto the macro's keys equals the expansion (for the repeat forms: whole rounds); for cancel variants (cancel-on-press of the repeat forms: during the first round only — the documentation leaves later rounds open) a prefix of it followed by the releases of what the prefix left pressed, complete when no cancel event happened, and no step later than the cancel event (+2 ticks of processing slack); consecutive macro steps on distinct ticks; gaps >= stated delays; a new round of a repeating macro starts only while its key is held (slack 2); after settle no macro key is held.",
         assumptions: &["release order among several held modifier prefixes is not fixed by the documentation; bodies use one modifier per prefix", "processing slack of 2 ticks around cancel / release instants"],
         required_level,
         min_outcomes: 3,
     }
 }
 
-const ITEMS: &[&str] = &["x", "y", "S-x", "2", "C-(x y)", "(x y)", "S-(x C-(y))", "(unicode ü)"];
+const ITEMS: &[&str] = &["x", "y", "S-x", "2", "C-(x y)", "(x y)", "S-(x C-(y))", "(unicode ü)", "A-(x 2 2 y)", "A-((unicode ü) (unicode ü) x x)", "(y 3 3 (unicode ü) (unicode ü))"];
+/// the first BASE_ITEMS entries form the alphabet of the deepest level; the rest (groups that repeat an
+/// item: two equal delays, the same custom item or the same key twice in a row) are used up to length 3
+const BASE_ITEMS: usize = 8;
 const VARIANTS: &[(&str, bool, bool, bool)] = &[
     // (name, repeat, cancel on release, cancel on press)
     ("macro", false, false, false),
@@ -51,11 +54,14 @@ fn expand_item(i: usize, out: &mut Vec<Stp>) {
         "C-(x y)" => out.extend([Down("LCtrl"), Down("X"), Up("X"), Down("Y"), Up("Y"), Up("LCtrl")]),
         "(x y)" => out.extend([Down("X"), Up("X"), Down("Y"), Up("Y")]),
         "S-(x C-(y))" => out.extend([Down("LShift"), Down("X"), Up("X"), Down("LCtrl"), Down("Y"), Up("Y"), Up("LCtrl"), Up("LShift")]),
+        "A-(x 2 2 y)" => out.extend([Down("LAlt"), Down("X"), Up("X"), Delay(2), Delay(2), Down("Y"), Up("Y"), Up("LAlt")]),
+        "A-((unicode ü) (unicode ü) x x)" => out.extend([Down("LAlt"), Uni, Uni, Down("X"), Up("X"), Down("X"), Up("X"), Up("LAlt")]),
+        "(y 3 3 (unicode ü) (unicode ü))" => out.extend([Down("Y"), Up("Y"), Delay(3), Delay(3), Uni, Uni]),
         _ => out.push(Uni),
     }
 }
 
-fn bodies(max_items: usize) -> Vec<Vec<usize>> {
+fn bodies(max_items: usize, nitems: usize) -> Vec<Vec<usize>> {
     let mut out = vec![];
     for len in 1..=max_items {
         let mut idx = vec![0usize; len];
@@ -66,7 +72,7 @@ fn bodies(max_items: usize) -> Vec<Vec<usize>> {
             let mut k = 0;
             while k < len {
                 idx[k] += 1;
-                if idx[k] < ITEMS.len() {
+                if idx[k] < nitems {
                     break;
                 }
                 idx[k] = 0;
@@ -94,11 +100,11 @@ fn jobs(tier: Tier) -> &'static Vec<Job> {
     };
     cell.get_or_init(|| {
         let mut v = vec![Job::Concurrent];
-        for b in bodies(3) {
+        for b in bodies(3, ITEMS.len()) {
             v.push(Job::Body { body: b, level: 0 });
         }
         if tier == Tier::Thorough {
-            for b in bodies(4).into_iter().filter(|b| b.len() == 4) {
+            for b in bodies(4, BASE_ITEMS).into_iter().filter(|b| b.len() == 4) {
                 v.push(Job::Body { body: b, level: 1 });
             }
         }
@@ -124,7 +130,7 @@ fn cfg_for(body: &[usize], variant: &str) -> String {
     format!("(defcfg)\n(defsrc a b c)\n(deflayer base ({variant} {}) b mlft)\n", text.join(" "))
 }
 
-const MKEYS: [&str; 4] = ["X", "Y", "LShift", "LCtrl"];
+const MKEYS: [&str; 5] = ["X", "Y", "LShift", "LCtrl", "LAlt"];
 
 /// projection of the trace on the macro's outputs
 fn project(s: &Sim) -> Vec<(u64, Stp)> {
@@ -280,7 +286,12 @@ fn judge(exp: &[Stp], repeat: bool, c_rel: bool, c_press: bool, obs: &[(u64, Stp
                 match st {
                     Stp::Delay(n) => pending_delay += n,
                     _ => {
-                        let Some((t, _)) = obs.get(oi) else { break 'd };
+                        let Some((t, o)) = obs.get(oi) else { break 'd };
+                        if o != st {
+                            // past the played prefix of a cancelled run: these are the clean-up releases (matched
+                            // above), to which the stated delays do not apply
+                            break 'd;
+                        }
                         if let Some(p) = prev {
                             if pending_delay > 0 && *t < p + pending_delay {
                                 let custom = (oi > 0 && matches!(obs[oi - 1].1, Stp::Uni)) || matches!(obs[oi].1, Stp::Uni);
